@@ -23,6 +23,12 @@ func SetApprove(cfg *program.Config, device, policy string, failed bool) {
 	v := Read(cfg, device)
 	result := "OK"
 	if failed {
+		// A failed approve leaves the device as it was.
+		// Keep information about last successful approve.
+		switch v.Approve.Result {
+		case "OK", "WARNINGS":
+			return
+		}
 		result = "FAILED"
 	}
 	v.Approve = action{result, policy, mytime.Now().Unix()}
